@@ -1110,9 +1110,10 @@ func compareLogicXEQ(left r.Element, right r.Element) (bool, error) {
 			if len(vla) != len(vra) {
 				return false, nil
 			}
-			// cmp each item, in the key order of the left operand: when one entry is
-			// different and another one cannot be compared, ranging over the Go map would
-			// let the iteration order decide between 假 and an error
+			// cmp every item: the verdict is a function of the entries, not of the order they
+			// were written in. An entry that differs decides (假) wherever it stands; an entry
+			// that cannot be compared raises its error only when no entry differs
+			var cmpErr error
 			for _, idx := range vl.GetKeyOrder() {
 				// ensure the key exists on vr
 				vrr, ok := vra[idx]
@@ -1121,12 +1122,17 @@ func compareLogicXEQ(left r.Element, right r.Element) (bool, error) {
 				}
 				cmpVal, err := compareLogicXEQ(vla[idx], vrr)
 				if err != nil {
-					return false, err
+					if cmpErr == nil {
+						cmpErr = err
+					}
+					continue
 				}
-				// break the loop only when cmpVal = false
 				if !cmpVal {
 					return false, nil
 				}
+			}
+			if cmpErr != nil {
+				return false, cmpErr
 			}
 			return true, nil
 		}
